@@ -143,6 +143,7 @@ class Generated:
         self.dropped = []
         self.files = {}       # file -> source bytes
         self.inserted = {}    # name of an inserted (generated) fn -> dict(tags, finding, desc)
+        self.lost = []        # (description, tags): anchors of contract text that no longer exist in the source
 
     def count(self, rule, n=1):
         self.rewrites[rule] = self.rewrites.get(rule, 0) + n
@@ -437,6 +438,9 @@ class Splicer:
             self.rewrite_body(f, r, data, ins, dele, fc)
         self.fn_range_marks(f, r, ins, fnkey)
 
+    def lose(self, desc, tags):
+        self.g.lost.append((desc, sorted(tags)))
+
     def toplevel_start(self, f, off):
         """start of the outermost item of file f that contains byte offset off"""
         best = off
@@ -491,10 +495,10 @@ class Splicer:
         if fc:
             for i in fc.loops:
                 if i >= len(r['loops']):
-                    raise ExtractError('lost anchor: %s has no loop #%d' % (fnkey, i))
+                    self.lose('%s has no loop #%d' % (fnkey, i), tags)
             for i in fc.closures:
                 if i >= len(r['closures']):
-                    raise ExtractError('lost anchor: %s has no closure #%d' % (fnkey, i))
+                    self.lose('%s has no closure #%d' % (fnkey, i), tags)
         # closures
         for i, cl in enumerate(r['closures']):
             spec = (fc.closures.get(i) if fc else None)
@@ -504,7 +508,8 @@ class Splicer:
                 # R12: a closure literal passed as a call argument is bound to a local in a block that wraps
                 # the call, so that ghost code can name it (closure construction has no side effects)
                 if not cl.get('call'):
-                    raise ExtractError('lost anchor: closure #%d of %s is not a direct call argument' % (i, fnkey))
+                    self.lose('closure #%d of %s is not a direct call argument' % (i, fnkey), tags)
+                    continue
                 name = spec['bind']
                 params = spec.get('params') or data[cl['or1'][1]:cl['or2'][0]].decode()
                 ret_ann = (' -> (%s)' % spec['ret']) if spec.get('ret') else ''
@@ -560,14 +565,14 @@ class Splicer:
             for (rx, text) in fc.body_proofs:
                 ms = list(re.finditer(rx, txt))
                 if not ms:
-                    raise ExtractError('lost anchor: body site %r in %s' % (rx, fnkey))
+                    self.lose('proof-hint site %r in %s' % (rx, fnkey), tags)
                 for mm in ms:
                     ins(b0 + len(txt[:mm.start()].encode()), text + ' ', {'rule': 'R8'})
                     self.g.count('R8')
             for (rx, text, wtags, wname) in getattr(fc, 'wrap_exprs', []):
                 ms = list(re.finditer(rx, txt))
                 if not ms:
-                    raise ExtractError('lost anchor: expression %r in %s' % (rx, fnkey))
+                    self.lose('expression %r in %s (%s)' % (rx, fnkey, wname), set(wtags.split()))
                 for mm in ms:
                     m = self.marker('assert', fnkey, f, 0, set(wtags.split()), Clause(text, wtags, name=wname))
                     ins(b0 + len(txt[:mm.start()].encode()), '{ ' + text + ' /*@' + m + '*/ ', {'rule': 'R8'})
@@ -586,7 +591,7 @@ class Splicer:
                     dele(s, s + len(old.encode()), 'R11', new)
                     n += 1
                 if n == 0:
-                    raise ExtractError('lost anchor: binder %s in %s' % (old, fnkey))
+                    self.lose('binder %s in %s' % (old, fnkey), tags)
 
     # ------------------------------------------------------------ assemble
     def build(self):
@@ -602,10 +607,13 @@ class Splicer:
             root_pieces.append(('ins', '\npub mod %s {\n' % modname + u.extra_uses + u.header.get(xf, ''), {'glue': 'extra mod open ' + xf}))
             root_pieces += sub
             root_pieces.append(('ins', u.appendix.get(xf, '') + '\n}\n', {'glue': 'extra mod close ' + xf}))
-        unused = [k for k, v in u.fns.items() if not v.used]
-        if unused:
-            raise ExtractError('lost anchor: contracted function(s) not found in the source: ' +
-                               ', '.join('%s:%s' % k for k in unused))
+        for k, v in u.fns.items():
+            if not v.used:
+                tg = set(v.tags) if v.tags is not None else set(u.default_tags)
+                for c in v.requires + v.ensures:
+                    if c.tags:
+                        tg |= c.tags
+                self.lose('contracted function %s:%s not found in the source' % k, tg)
         pieces = []
         pieces.append(('ins', ''.join('#![feature(%s)]\n' % ft for ft in getattr(u, 'features', [])) + '#![allow(unused_imports, unused_variables, dead_code, unused_mut, unused_braces, unused_parens, non_snake_case)]\n', {'glue': 'head'}))
         for h in self.hoisted:
